@@ -1,3 +1,99 @@
-import AioModel.C14
+import AioProps.C14Lemmas
+/-!
+# C14 — property theorems (URL dispatch follows the documented resolution rule)
+
+Model: `AioModel/C14.lean` (= `aiohttp/web_urldispatcher.py`, sub-app registration of
+`web_app.py`, `normalize_path_middleware`).  `resolve` is the code (index walk), `linear` the
+documented rule (no index).  Every statement quantifies over all tables / paths / methods /
+hosts of the stated shape.
+-/
 namespace Aio.C14
+open Aio
+
+/-- the prefix index describes the resource list: the bucket of every key holds exactly the
+positions of the (non-domain) resources with that key, in registration order, and
+`_matched_sub_app_resources` holds exactly the domain resources -/
+def IndexOK (t : Table) : Prop :=
+  (∀ k, bucketOf t.index k = positions (fun r => !isDom r && keyOf r == k) t.rs) ∧
+  t.matched = positions isDom t.rs
+
+/-- `IndexOK` at every nesting level (down to depth `f`), and well-formed prefixes -/
+def Good : Nat → Table → Prop
+  | 0, _ => True
+  | f + 1, t => IndexOK t ∧ ∀ r ∈ t.rs,
+      match r with
+      | .sub pfx s => PfxWF pfx ∧ Good f s
+      | .dom _ s => Good f s
+      | .static pfx _ => PfxWF pfx
+      | _ => True
+
+theorem flatMap_congr' {α β} (l : List α) (F G : α → List β) (h : ∀ a ∈ l, F a = G a) :
+    l.flatMap F = l.flatMap G := by
+  induction l with
+  | nil => rfl
+  | cons a l ih =>
+    simp only [List.flatMap_cons]
+    rw [h a (List.mem_cons_self ..), ih (fun x hx => h x (List.mem_cons_of_mem _ hx))]
+
+/-- **index_complete.** A resource that the documented rule lets answer anything but
+"no match, no methods" is indexed under a key that the walk `path, parent(path), …, "/"` visits. -/
+theorem index_complete (rec : Table → Req → Result) (r : Res) (q : Req)
+    (hp : StartsSL q.path) (hd : isDom r = false) (h : ansSpecWith rec r q ≠ .pass []) :
+    keyOf r ∈ walk q.path :=
+  key_mem_walk_of_answer rec r q hp hd h
+
+/-- **resolve_eq_linear.** For every table whose index is consistent (at every nesting
+level), every request path starting with `/`, every method and host: the index walk of
+`UrlDispatcher.resolve` returns exactly what the documented linear rule returns — same
+handler, same match dict, same 404/405 and the same allowed methods in the same order. -/
+theorem resolve_eq_linear (f : Nat) (t : Table) (q : Req) (hp : StartsSL q.path) (hg : Good f t) :
+    resolve f t q = linear f t q := by
+  induction f generalizing t with
+  | zero => rfl
+  | succ f ih =>
+    obtain ⟨⟨hidx, hm⟩, hrs⟩ := hg
+    -- the two answer functions agree on every resource whose key is visited
+    have hA : ∀ r ∈ t.rs, isDom r = false → keyOf r ∈ walk q.path →
+        ansWith (resolve f) r q = ansSpecWith (linear f) r q := by
+      intro r hr hd hk
+      have hgr := hrs r hr
+      cases r with
+      | plain p rts => rfl
+      | dyn o ps rts => rfl
+      | static pfx rts =>
+        have hu := underPrefix_of_key_mem_walk hp hgr hk
+        simp [ansWith, ansSpecWith, hu]
+      | sub pfx s =>
+        have hu := underPrefix_of_key_mem_walk hp hgr.1 hk
+        simp [ansWith, ansSpecWith, hu, ih s hgr.2]
+      | dom rule s => simp [isDom] at hd
+    have hD : ∀ r ∈ t.rs.filter isDom, ansWith (resolve f) r q = ansSpecWith (linear f) r q := by
+      intro r hr
+      have ⟨hr1, hr2⟩ := List.mem_filter.mp hr
+      have hgr := hrs r hr1
+      cases r with
+      | dom rule s => simp [ansWith, ansSpecWith, ih s hgr]
+      | _ => simp [isDom] at hr2
+    simp only [resolve, linear]
+    rw [hm, atPositions_positions, List.map_congr_left hD]
+    rw [← combine_nz, ← combine_nz (_ ++ (descRange _).flatMap _)]
+    rw [nz_append, nz_append]
+    congr 2
+    simp only [hidx, atPositions_positions]
+    rw [flatMap_congr' (walk q.path) _
+      (fun k => (t.rs.filter (fun r => !isDom r && keyOf r == k)).map (fun r => ansSpecWith (linear f) r q))]
+    · unfold descRange
+      refine scan_eq t.rs keyOf isDom (fun r => ansSpecWith (linear f) r q) _ _ (walk_pairwise hp) ?_ ?_
+      · intro k hk; have := walk_length_le hp hk; omega
+      · intro r _ hd _ hk
+        apply Classical.byContradiction
+        intro hne
+        exact hk (index_complete _ r q hp hd hne)
+    · intro k hk
+      apply List.map_congr_left
+      intro r hr
+      have ⟨hr1, hr2⟩ := List.mem_filter.mp hr
+      simp only [Bool.and_eq_true, Bool.not_eq_true', beq_iff_eq] at hr2
+      exact hA r hr1 hr2.1 (by rw [hr2.2]; exact hk)
+
 end Aio.C14
